@@ -190,7 +190,22 @@ def make_inputs(input_list, repeat=None):
     return mock_input
 
 
-class PrintingStringIO(StringIO):
+class CapturedOutput(StringIO):
+    """ The stream that student code prints to. What was printed stays
+    available when the student's own code closes the stream. """
+    _text_when_closed = None
+
+    def close(self):
+        if not self.closed:
+            self._text_when_closed = self.getvalue()
+        super().close()
+
+    def captured_text(self):
+        """ Everything that was written, whether or not the stream is still open. """
+        return self._text_when_closed if self.closed else self.getvalue()
+
+
+class PrintingStringIO(CapturedOutput):
     _ORIGINAL_STDOUT = sys.stdout
 
     def __init__(self, stdout=None, *args, **kwargs):
